@@ -470,6 +470,10 @@ func (g *gen) step(prop string) []CStep {
 			// the outsider applies for an appchain of its own, naming a second administrator, and withdraws the application
 			return []CStep{CStep{Op: "occupycycle", A: r.Intn(8), N: r.Intn(6), B: r.Intn(1000)}}
 		}
+		if r.Chance(0.02) {
+			// a module's voting strategy is switched while one of its proposals is open; the outsider then calls the proposal callbacks
+			return []CStep{CStep{Op: "zeroswitch", A: r.Intn(8), N: r.Intn(10), B: r.Intn(1000)}}
+		}
 		switch r.Weighted([]int{14, 3, 4, 1}) {
 		case 0:
 			return []CStep{g.call()}
